@@ -165,6 +165,10 @@ type cli_respSpec struct {
 	// dynamic table size updates written by hand (4096, the size the table has anyway)
 	lateUpdate    bool // behind the last field of the block: a decoding error, the response must not be delivered
 	trailerUpdate bool // the stream ends with a trailer block that holds the update and nothing else
+	// a trailer section (fields, after the body, END_STREAM on its HEADERS frame), cut like the first block; only in scripts
+	// that send their responses one after the other (the block is encoded when the response is rendered)
+	trailers []cli_kv
+	tcuts    []int
 }
 
 var rawSizeUpdate = []byte{0x3f, 0xe1, 0x1f}
@@ -215,7 +219,7 @@ func (s *scn) render(sid uint32, r cli_respSpec) [][]byte {
 	block := s.enc.block(fields)
 	r.hdrs = fields[1:]
 	var frames [][]byte
-	endOnHeaders := len(r.body) == 0 && !r.emptyLast && !r.trailerUpdate
+	endOnHeaders := len(r.body) == 0 && !r.emptyLast && !r.trailerUpdate && len(r.trailers) == 0
 	if r.lateUpdate {
 		block = append(block, rawSizeUpdate...)
 	}
@@ -236,6 +240,11 @@ func (s *scn) render(sid uint32, r cli_respSpec) [][]byte {
 				frames = append(frames, frData(sid, rem, false, r.padD))
 			}
 			frames = append(frames, frHeaderBlock(sid, rawSizeUpdate, true, nil, -1))
+		} else if len(r.trailers) > 0 {
+			if len(rem) > 0 {
+				frames = append(frames, frData(sid, rem, false, r.padD))
+			}
+			frames = append(frames, frHeaderBlock(sid, s.enc.block(r.trailers), true, r.tcuts, -1))
 		} else if r.emptyLast {
 			if len(rem) > 0 {
 				frames = append(frames, frData(sid, rem, false, -1))
@@ -254,7 +263,7 @@ func (s *scn) render(sid uint32, r cli_respSpec) [][]byte {
 	// expectation: what a conforming client hands to the caller
 	var hs []string
 	cl, ct := "0", hexOrDash([]byte("text/plain; charset=utf-8"))
-	for _, h := range r.hdrs {
+	for _, h := range append(append([]cli_kv{}, r.hdrs...), r.trailers...) {
 		switch h.k {
 		case "content-length":
 			cl = h.v
@@ -418,7 +427,7 @@ func genCliResp(p *prng, thorough bool, w *bufio.Writer) {
 		s.finale("close")
 	}
 	// header blocks continued in CONTINUATION (ledger F36): split at every offset of a short block
-	for cut := 1; cut < 24; cut++ {
+	for cut := 0; cut < 40; cut++ {
 		s := newScn(w, p.fork(), 3, 100)
 		s.note("class %s F36", s.id)
 		t1, sid1 := s.req(reqSpec{path: "/one"})
@@ -428,6 +437,25 @@ func genCliResp(p *prng, thorough bool, w *bufio.Writer) {
 		s.frames(s.render(sid2, cli_respSpec{status: "200", hdrs: []cli_kv{{k: "x-a", v: "first"}, {k: "x-b", v: "second"}}, padH: -1, padD: -1})...)
 		s.read(t1, t2)
 		s.finale("close")
+	}
+	// a trailer section, whole and cut at every offset (0: an empty HEADERS fragment; the block's length: an empty last
+	// CONTINUATION with nothing but END_HEADERS), with and without a body; its fields reach the caller with the others and
+	// its table insertions count for the response after it
+	for cut := -1; cut < 24; cut++ {
+		for _, body := range []string{"", "abc"} {
+			s := newScn(w, p.fork(), 3, 100)
+			t1, sid1 := s.req(reqSpec{path: "/one"})
+			t2, sid2 := s.req(reqSpec{path: "/two"})
+			r := cli_respSpec{status: "200", hdrs: []cli_kv{{k: "x-a", v: "first"}}, body: []byte(body), padH: -1, padD: -1,
+				trailers: []cli_kv{{k: "x-t", v: "trailing"}, {k: "etag", v: "tagtag"}}}
+			if cut >= 0 {
+				r.tcuts = []int{cut}
+			}
+			s.frames(s.render(sid1, r)...)
+			s.frames(s.render(sid2, cli_respSpec{status: "200", hdrs: []cli_kv{{k: "x-t", v: "trailing"}, {k: "x-a", v: "first"}}, padH: -1, padD: -1})...)
+			s.read(t1, t2)
+			s.finale("close")
+		}
 	}
 	// ... and cut twice or three times (HEADERS + several CONTINUATION frames), on a response with a body (the stream ends on
 	// DATA) and on one without (END_STREAM rides on the HEADERS frame and takes effect with the block's last frame)
@@ -442,7 +470,7 @@ func genCliResp(p *prng, thorough bool, w *bufio.Writer) {
 					cuts = append(cuts, c2+1) // a third CONTINUATION of one octet
 				}
 				if (c1+c2)%5 == 0 {
-					cuts = []int{c1, c1, c2} // an empty CONTINUATION in between (frHeaderBlock drops equal offsets: see below)
+					cuts = []int{c1, c1, c2} // an empty CONTINUATION in between
 				}
 				r := cli_respSpec{status: "200", hdrs: []cli_kv{{k: "x-a", v: "first"}, {k: "etag", v: "tagtagtag"}}, body: []byte(body), padH: -1, padD: -1, cuts: cuts}
 				s.frames(s.render(sid1, r)...)
